@@ -25,7 +25,7 @@ class HarnessError(Exception):
     pass
 
 
-class Deadlock(Exception):
+class Deadlock(BaseException):
     pass
 
 
@@ -165,6 +165,21 @@ class Sim:
         return v, exc, self.step - start
 
 
+ACTIVE_SCHED = None
+
+
+def lib_stack(frame, limit=40):
+    """Names of library functions on the stack of ``frame`` (innermost first)."""
+    out = []
+    f = frame
+    while f is not None and len(out) < limit:
+        fn = f.f_code.co_filename
+        if fn.startswith(LIBDIR) or fn.startswith("<ovld:"):
+            out.append(f.f_code.co_name)
+        f = f.f_back
+    return out
+
+
 class Scheduler:
     """Baton-passing scheduler for real threads.
 
@@ -189,6 +204,14 @@ class Scheduler:
         self.errors = []
         self.switch_locs = []  # (from_tid, loc, to_tid)
         self.deadlock = False
+        self.parked = [None] * nthreads  # library function names on the stack when pre-empted
+        self.pending_pair = None
+        self.pairs = []
+        self.probes = {"switch_inside_compile": 0, "switch_inside_resolve": 0,
+                       "dispatch_while_other_in_compile": 0,
+                       "compile_while_other_in_compile": 0,
+                       "lookup_while_other_in_resolve": 0, "blocked_on_lock": 0}
+        self.watch = False
         sim.sched = self
 
     # -- decisions -----------------------------------------------------------
@@ -199,6 +222,11 @@ class Scheduler:
         cur = self.current
         step = self.sim.step
         nxt = None
+        if self.pending_pair is not None:
+            self.pairs.append((self.pending_pair, short_loc(frame.f_code, frame.f_lineno)))
+            self.pending_pair = None
+        if self.watch:
+            self._watch(cur, frame)
         if self.script is not None:
             while self.script_i < len(self.script) and self.script[self.script_i][0] < step:
                 self.script_i += 1
@@ -210,8 +238,33 @@ class Scheduler:
         if nxt is None or nxt == cur or not (0 <= nxt < self.n) or self.state[nxt] != "ready":
             return
         self.switches.append([step, nxt])
-        self.switch_locs.append((cur, short_loc(frame.f_code, frame.f_lineno), nxt))
+        loc = short_loc(frame.f_code, frame.f_lineno)
+        self.switch_locs.append((cur, loc, nxt))
+        st = lib_stack(frame)
+        self.parked[cur] = st
+        if "compile" in st:
+            self.probes["switch_inside_compile"] += 1
+        if "resolve" in st or "__missing__" in st:
+            self.probes["switch_inside_resolve"] += 1
+        self.watch = True
+        self.pending_pair = loc
         self._handoff(cur, nxt)
+        self.parked[cur] = None
+        self.watch = any(p for p in self.parked)
+
+    def _watch(self, cur, frame):
+        name = frame.f_code.co_name
+        fn = frame.f_code.co_filename
+        for i, st in enumerate(self.parked):
+            if i == cur or not st:
+                continue
+            if "compile" in st:
+                if fn.startswith("<ovld:") and "DEPENDENT" not in name and "specialized" not in name:
+                    self.probes["dispatch_while_other_in_compile"] += 1
+                elif name == "compile":
+                    self.probes["compile_while_other_in_compile"] += 1
+            if ("resolve" in st) and name == "__missing__":
+                self.probes["lookup_while_other_in_resolve"] += 1
 
     def _handoff(self, cur, nxt):
         self.current = nxt
@@ -230,7 +283,18 @@ class Scheduler:
             self.deadlock = True
             self.state[cur] = "ready"
             raise Deadlock("all live threads are blocked")
-        nxt = ready[0] if self.strategy is None else self.strategy.pick(self, ready)
+        self.probes["blocked_on_lock"] += 1
+        nxt = None
+        if self.script is not None:
+            i = self.script_i
+            while i < len(self.script) and self.script[i][0] < self.sim.step:
+                i += 1
+            if i < len(self.script) and self.script[i][0] == self.sim.step \
+                    and self.script[i][1] in ready:
+                nxt = self.script[i][1]
+                self.script_i = i + 1
+        if nxt is None:
+            nxt = ready[0] if self.strategy is None else self.strategy.pick(self, ready)
         self.switches.append([self.sim.step, nxt])
         self._handoff(cur, nxt)
 
@@ -264,6 +328,15 @@ class Scheduler:
                 self.done_sem.release()
 
     def run(self, bodies, first=0):
+        global ACTIVE_SCHED
+        ACTIVE_SCHED = self
+        try:
+            return self._run(bodies, first)
+        finally:
+            ACTIVE_SCHED = None
+            self.sim.sched = None
+
+    def _run(self, bodies, first=0):
         threads = []
         for tid, body in enumerate(bodies):
             t = threading.Thread(target=self._thread_main, args=(tid, body), daemon=True)
@@ -287,6 +360,92 @@ class Scheduler:
 
 # ---------------------------------------------------------------------------
 # strategies (each draws only from the run's PRNG)
+
+
+class SimRLock:
+    """Re-entrant lock served to the library instead of threading.(R)Lock.
+
+    Blocking is a scheduler event, never an OS-level wait, so that the
+    simulator keeps deciding who runs; "all threads blocked" is a deadlock
+    verdict instead of a hang."""
+
+    registry = []
+
+    def __init__(self, reentrant=True):
+        self.owner = None
+        self.count = 0
+        self.reentrant = reentrant
+        SimRLock.registry.append(self)
+
+    def _me(self):
+        s = ACTIVE_SCHED
+        return ("t", s.current) if s is not None else ("main",)
+
+    def acquire(self, blocking=True, timeout=-1):
+        me = self._me()
+        while self.owner is not None and (self.owner != me or not self.reentrant):
+            s = ACTIVE_SCHED
+            if s is None:
+                if self.owner != me:
+                    # held by a simulated thread that is gone (crashed run): treat as free
+                    self.owner = None
+                    self.count = 0
+                    break
+                raise Deadlock("non-reentrant lock re-acquired")
+            if not blocking:
+                return False
+            s.block(self)
+            me = self._me()
+        self.owner = me
+        self.count += 1
+        return True
+
+    def release(self):
+        if self.count <= 0:
+            raise RuntimeError("release of an unheld lock")
+        self.count -= 1
+        if self.count == 0:
+            self.owner = None
+            s = ACTIVE_SCHED
+            if s is not None:
+                s.unblock(self)
+
+    def locked(self):
+        return self.owner is not None
+
+    def __enter__(self):
+        self.acquire()
+        return self
+
+    def __exit__(self, *a):
+        self.release()
+
+    @classmethod
+    def reset_all(cls):
+        for lk in cls.registry:
+            lk.owner = None
+            lk.count = 0
+
+
+def install_lock_shim():
+    """Serve SimRLock to modules of the ovld package (call before importing ovld)."""
+    if getattr(threading, "_sim_shim", False):
+        return
+    real_rlock, real_lock = threading.RLock, threading.Lock
+
+    def _from_ovld():
+        f = sys._getframe(2)
+        return (f.f_globals.get("__name__") or "").split(".")[0] == "ovld"
+
+    def rlock(*a, **k):
+        return SimRLock(True) if _from_ovld() else real_rlock(*a, **k)
+
+    def lock(*a, **k):
+        return SimRLock(False) if _from_ovld() else real_lock(*a, **k)
+
+    threading.RLock = rlock
+    threading.Lock = lock
+    threading._sim_shim = True
 
 
 class RandomWalk:
